@@ -44,6 +44,10 @@ pub fn lex(s: &str) -> Vec<Atom> {
             }
             out.push(Atom::Str(crate::disasm_ref::unquote(&raw).unwrap_or(raw)));
             i = j + 1;
+        } else if c == '-' && cs[i + 1..].iter().collect::<String>().starts_with("inf") {
+            // Debug of f32::NEG_INFINITY
+            out.push(Atom::Float("-inf".into()));
+            i += 4;
         } else if c.is_ascii_alphabetic() || c == '_' {
             let mut j = i;
             while j < cs.len() && (cs[j].is_ascii_alphanumeric() || cs[j] == '_') {
@@ -452,6 +456,13 @@ fn build_module(s: &ModSpec) -> Option<(Vec<Inst>, Expected)> {
         if k == 3 && const_ids.len() >= 2 && find(&type_ids, "vector").is_some() {
             insts.push(Inst::new("ConstantComposite", Some(find(&type_ids, "vector").unwrap()), Some(id), vec![Arg::IdRef(const_ids[2]), Arg::IdRef(const_ids[0])]));
             const_debug.push("Composite T2 T0".to_string());
+        } else if k == 1 && find(&type_ids, "float").is_some() {
+            // a 32-bit float constant with a telling bit pattern (negative zero, smallest denormal, infinities, largest
+            // finite, 0.1, NaNs): lifted as the very same value
+            const BITS: [u32; 8] = [0x8000_0000, 0x0000_0001, 0x7F80_0000, 0xFF80_0000, 0x7F7F_FFFF, 0x3DCC_CCCD, 0x7FC0_0000, 0xBF80_0000];
+            let v = BITS[(s.types.len() + s.consts + s.caps.len() + s.funcs.len()) % BITS.len()];
+            insts.push(Inst::new("Constant", Some(find(&type_ids, "float").unwrap()), Some(id), vec![Arg::Lit32(v)]));
+            const_debug.push(format!("Float {:?}", f32::from_bits(v)));
         } else {
             // the third declaration repeats the first one's value: one constant per DECLARATION, equal or not
             let v = 0xFFFF_FFF0u32 + (k % 2) as u32;
